@@ -61,6 +61,7 @@ Inductive micro :=
   | MDropRx (h : nat)
   | MCellRead (u : nat)
   | MCellWrite (u : nat) (v : N)
+  | MCellNested (u k : nat)
   | MYield
   | MUnsyncLoad (a : nat)
   | MWithMut (a : nat) (v : N)
